@@ -20,3 +20,85 @@ func HarnessC06Text() {
 	verifObserve("out", out)
 	verifAssert(out == src, "delimiter-free source must render to itself")
 }
+
+// c06Fragment builds one fragment of kind k and returns (source, expected rendering).
+// Symbolic parts: text, verbatim body, comment content. m = number of symbolic bytes per part.
+func c06Fragment(k, m int) (string, string) {
+	switch k {
+	case 0: // literal text
+		t := symString(m)
+		verifAssume(noDelims(t))
+		verifAssume(len(t) == 0 || t[len(t)-1] != '{') // must not form a delimiter with its right neighbour
+		return t, t
+	case 1: // verbatim block: body emitted literally, never interpreted
+		b := symString(m)
+		return "{% verbatim %}" + b + "{% endverbatim %}", b
+	case 2: // single-line comment
+		c := symString(m)
+		verifAssume(!hasByte(c, '\n'))
+		verifAssume(indexOf(c+" ", "#}") < 0)
+		return "{# " + c + " #}", ""
+	case 3: // comment tag with plain text content
+		d := symString(m)
+		verifAssume(noDelims(d))
+		verifAssume(len(d) == 0 || d[len(d)-1] != '{')
+		return "{% comment %}" + d + "{% endcomment %}", ""
+	case 4: // comment tag whose content would fail if it were evaluated
+		return "{% comment %}{{ 1/0 }}{% include nosuchvar %}{% endcomment %}", ""
+	case 5: // variable with a string literal
+		return "{{ \"lit\" }}", "lit"
+	default: // templatetag
+		names := []string{"openblock", "closeblock", "openvariable", "closevariable", "openbrace", "closebrace", "opencomment", "closecomment"}
+		outs := []string{"{%", "%}", "{{", "}}", "{", "}", "{#", "#}"}
+		i := verifChoice(len(names))
+		return "{% templatetag " + names[i] + " %}", outs[i]
+	}
+}
+
+const c06Kinds = 7
+
+// (b) independent fragments next to each other render to the concatenation of their renderings;
+// verbatim bodies are literal, comments emit nothing, templatetag emits the named delimiter.
+func HarnessC06Fragments() {
+	m := verifParam("m", 1)
+	nf := verifParam("frags", 2)
+	src, want := "", ""
+	for i := 0; i < nf; i++ {
+		k := verifChoice(c06Kinds)
+		mm := m
+		if i > 0 && mm > 1 {
+			mm = 1 // keep the product of symbolic regions bounded: first fragment m bytes, others 1
+		}
+		if verifKnown("C06-empty-verbatim") && k == 1 {
+			verifAssume(mm > 0)
+		}
+		s, w := c06Fragment(k, mm)
+		if verifKnown("C06-adjacent-verbatim") && k == 1 {
+			// open finding: a verbatim block directly after another verbatim block is a compile error
+			verifAssume(!(len(src) >= 17 && src[len(src)-17:] == "{% endverbatim %}"))
+		}
+		verifObserve("kind", k)
+		src += s
+		want += w
+	}
+	verifObserve("src", src)
+	out, ok := render(src, nil)
+	verifAssert(ok, "fragment sequence must compile and execute")
+	verifObserve("out", out)
+	verifAssert(out == want, "fragments must render to the concatenation of their renderings")
+}
+
+// (c) verbatim: body is emitted literally for every body not containing the end marker — also empty.
+func HarnessC06Verbatim() {
+	m := verifChoice(verifParam("m", 2) + 1)
+	b := symString(m)
+	if verifKnown("C06-empty-verbatim") {
+		verifAssume(m > 0)
+	}
+	verifObserve("body", b)
+	pre := symStringLen(0, 1)
+	verifAssume(noDelims(pre + "{"))
+	out, ok := render(pre+"{% verbatim %}"+b+"{% endverbatim %}"+"z", nil)
+	verifAssert(ok, "verbatim block must compile and execute")
+	verifAssert(out == pre+b+"z", "verbatim body must be emitted literally")
+}
